@@ -38,7 +38,7 @@ def valid_cases(cv, rng, quick):
     out = []
     nm = 2 if quick else 8
     seeds = [rng.randrange(2, 1 << 64) for _ in range(3 if quick else 10)]
-    anysys = lambda: rng.choice([BASIC, PROJC, JACOB])
+    anysys = lambda: rng.choice([BASIC, cv.sys])      # affine or the build's projective system
     # ---- G1: members, identity, off-curve coordinates, curve points not constructed from the generator
     #      (cofactor 1: members; cofactor > 1: non-members w.h.p.), cofactor-part and small-order points,
     #      member + small-order point
@@ -61,9 +61,9 @@ def valid_cases(cv, rng, quick):
     #      small order, member + small-order point
     for m in members(cv, rng, nm):
         out.append("g2_is_valid %s 0 %s" % (c, gen_ep2.point_token(cv, m, anysys(), rng)))
-    for t in ("inf", "infp", "infj"):
+    for t in ("inf", gen_ep2.inf_token(cv.sys, rng)):
         out.append("g2_is_valid %s 0 %s" % (c, t))
-    out += gen_ep2.offcurve_cases(cv, rng, 4 if quick else 16, op="g2_is_valid")
+    out += gen_ep2.offcurve_cases(cv, rng, 4 if quick else 16, op="g2_is_valid", systems=(BASIC, cv.sys))
     for sd in seeds:
         for kind in ("c", "r", "h"):
             out.append("g2_is_valid %s 0 %s" % (c, gen_ep2.seed_token(kind, sd + 4 * (kind == "r"), cv, anysys(), rng)))
